@@ -492,6 +492,36 @@ func Reps(v *ref.Val, fullNodes, dev int, o RepOpts) []Rep {
 			}
 		}
 	}
+	// alternating stylings: every container in one untyped style (any-elements), the number leaves
+	// alternating between the canonical float64 and one other style (equal values in one container
+	// of the same Go type, carried differently)
+	for ns := 1; ns < len(numStyles); ns++ {
+		for _, as := range []int{0, 2} { // []any, [n]any
+			for _, os := range []int{0, 2} { // map[string]any, map[MyKey]any
+				u := make([]nodeChoice, n)
+				okAll, leaf := true, 0
+				for i, nd := range nodes {
+					switch nd.K {
+					case ref.Num:
+						if leaf%2 == 1 {
+							u[i].style = ns
+						}
+						leaf++
+					case ref.Arr:
+						u[i].style = as
+					case ref.Obj:
+						u[i].style = os
+					}
+					if !allowed(nd, u[i], o) {
+						okAll = false
+					}
+				}
+				if okAll && leaf > 1 {
+					emit(u)
+				}
+			}
+		}
+	}
 	return out
 }
 
